@@ -113,6 +113,12 @@ def gen_cfg(rng, kinds=ALL, ty=None, probe=True, nch=None, max_chunk=None, sinc_
     if max(ri, ro) // g > 3000:
         chunk = min(chunk, 64)
     sub = rng.choice([1, 1, 2, 3, 4, 8])
+    unit = (ro // g) if kind == "fftout" else (ri // g)
+    if kind != "fftio" and unit <= 400 and rng.random() < 0.2:
+        # a request a few frames beyond a whole number of sub-chunks of whole units: the integer divisions
+        # (chunk / sub_chunks, frames / block) each drop a different remainder here
+        sub = rng.choice([2, 3, 4, 8])
+        chunk = min(6000, sub * unit * rng.randint(1, 6) + rng.randint(0, sub - 1))
     if kind == "fftio":
         line = f"{ty} fftio {ri} {ro} {chunk} {nch}"
     else:
@@ -149,6 +155,8 @@ def in_range_ratio(rng, cfg, calm=False):
     else:
         lo, hi = 1 / cfg.maxrel, cfg.maxrel
     rel = math.exp(rng.uniform(math.log(lo), math.log(hi)))
+    if not calm and rng.random() < 0.2:
+        rel = rng.choice([lo, hi])      # the ends of the permitted range (just inside)
     rel = min(max(rel, lo * (1 + 1e-9)), hi * (1 - 1e-9))
     return cfg.ratio * rel, rel
 
